@@ -102,6 +102,22 @@ func c07Gen(r *Rand, tier string, scale int, emit func(Fields)) {
 			add(sc)
 		}
 	}
+	// 5b. leftovers: lines still queued when connection N ends — in conn.out (the application
+	//     keeps sending while the server has stopped reading) and in conn.in (a burst behind a
+	//     slow handler) — then a reconnect: connection N+1 must carry its own registration first
+	//     and deliver only its own lines
+	for j, q := range [][4]int{{0, 0, 65, 1}, {0, 0, 300, 1}, {0, 0, 65, 2}, {0, 0, 300, 2},
+		{1, 100, 0, 0}, {1, 400, 0, 0}, {2, 67, 300, 1}, {2, 66, 65, 1}, {1, 100, 300, 2}, {1, 400, 65, 2}} {
+		c := mk(c07Ender(j % 3))
+		c.hs, c.inN, c.outN, c.outBy, c.segs = q[0], q[1], q[2], q[3], 1+j%3
+		if c.outBy == 1 {
+			c.hs = 2
+		}
+		c.origin = j % 2
+		c2 := mk(c07Ender(0))
+		c2.inN, c2.hs = 3, 0 // its own lines, delivered on its own connection
+		add(lcScript{tracking: j%2 == 0, ctx: true, cycles: []lcCycle{c, c2}})
+	}
 	// 6. D12: a handler asks Connected() while the teardown waits for it — every cause
 	for e := 0; e < 5; e++ {
 		c := mk(c07Ender(e))
